@@ -210,6 +210,10 @@ class SimplicialComplex:
         # fill in defaults
         if id is None:
             id = self._rep.newSimplex(k)
+        else:
+            # check we've got a new id before we create any faces
+            if self._rep.containsSimplex(id) or (k > 0 and id in bs):
+                raise KeyError(f'Duplicate simplex {id}')
         if attr is None:
             attr = dict()
 
